@@ -105,6 +105,8 @@ def one_vector(exe, template, root, idx, vec):
         elif mode == "v":
             if [f for f in after if f not in before and f != "O.out"]:
                 ok, note = False, "verify created files: %s" % [f for f in after if f not in before]
+            elif os.path.exists(os.path.join(d, "O.out")) and os.path.getsize(os.path.join(d, "O.out")) > 0:
+                ok, note = False, "verify wrote %d bytes to the file given with -o" % os.path.getsize(os.path.join(d, "O.out"))
         ev["effect"], ev["effect_note"] = (1 if ok else 0), note
     shutil.rmtree(d, ignore_errors=True)
     return ev
